@@ -104,7 +104,9 @@ pub fn last_os_error() -> IoError { unimplemented!() }
 
 // ---------- handler.rs: memory-table updates (ADD_MEM_REG / REM_MEM_REG). vm-memory is modelled by its documented effect on a
 // ghost view of the region table (assumed: A-VMM); the backend is told through update_memory.
-pub struct RegionDesc { pub gpa: u64, pub size: u64, pub file: int, pub off: u64 }
+// `logged`: the region's bitmap has an inner log installed (dirty pages are recorded)
+pub struct RegionDesc { pub gpa: u64, pub size: u64, pub file: int, pub off: u64, pub logged: bool }
+pub open spec fn all_logged(v: Seq<RegionDesc>) -> bool { forall|i: int| 0 <= i < v.len() ==> (#[trigger] v[i]).logged }
 pub struct FileStub { pub id: Ghost<int> }
 pub struct MmapRegionStub { pub size: u64, pub file: int, pub off: u64 }
 pub struct GuestRegionStub { pub d: RegionDesc }
@@ -121,7 +123,8 @@ impl RegionMsg {
 // R6 target of GuestRegionMmap::new(mmap, GuestAddress(gpa)).ok_or(..)
 #[verifier::external_body]
 pub fn guest_region_new(m: MmapRegionStub, a: GuestAddress) -> (r: VhostUserResult<GuestRegionStub>)
-    ensures r is Ok ==> r->Ok_0.d == (RegionDesc { gpa: a.0, size: m.size, file: m.file, off: m.off })
+    // a freshly created region has NewBitmap::with_len's bitmap: no inner log (proved-by: c15_fresh_region_bitmap_unlogged)
+    ensures r is Ok ==> r->Ok_0.d == (RegionDesc { gpa: a.0, size: m.size, file: m.file, off: m.off, logged: false })
 { unimplemented!() }
 pub struct MemSnapshot { pub regions: Seq<RegionDesc> }
 pub struct AtomicMemStub { pub view: Ghost<Seq<RegionDesc>> }
